@@ -1,4 +1,5 @@
 import CoclsModel.AggregatorProofs
+import CoclsModel.AggregatorValuesProofs
 /-!
 # C14 — generator aggregator: union of all sources, per-source order preserved
 
@@ -9,6 +10,13 @@ consumer drops the aggregate, from plain code or from inside a running coroutine
 Every theorem quantifies over *all* configurations (`Cfg`: any number of sources, arbitrary scripts — finite or
 infinite, synchronous or asynchronous, throwing or not) and *all* operation lists, i.e. all interleavings of
 aggregator steps, source completions and consumer operations.
+
+Second part (namespace `Cocls.AggV`, model `CoclsModel/AggregatorValues.lean`): the same machine with the VALUES as
+objects that live in the sources (the aggregate only holds a pointer to what a source yielded) and with the consumer's
+access style (`Style`: `next()/value()`, iterator, `co_await next()`, and the future of `gen()` read through
+`co_await val.has_value()`, `if (val)`, `!val`, `*val`, `co_await val`, `sync()+value()`): the theorems say that no
+access style takes a value away from its source, that the consumer reads exactly the delivered values, and that the end
+and a source's exception reach the consumer in every style.
 -/
 namespace Cocls.Agg
 
@@ -438,3 +446,133 @@ example : (run exCfg2 init ([Op.next 0] ++ aggs 4 ++ [Op.resolve 1] ++ [Op.next 
 example : (run exCfg2 init ([Op.next 0] ++ aggs 4 ++ [Op.next 0] ++ aggs 3)).ag = Ag.parkedPop := by decide
 
 end Cocls.Agg
+
+/-! # Values as objects of the sources, and the consumer's access styles -/
+namespace Cocls.AggV
+open Cocls.Agg (Act SRes SSt Ag)
+
+/-- every reachable state of the value / result layer, for every configuration (any number of sources, any scripts,
+any choice of yields that are lvalues the source keeps) and every operation list (every access in any style) -/
+def Reachable (c : Cfg) (s : State) : Prop := ∃ ops, s = run c init ops
+
+theorem reachable_vinv {c : Cfg} {s : State} (h : Reachable c s) : VInv c s ∧ Agg.Inv c.base s.base := by
+  obtain ⟨ops, rfl⟩ := h
+  exact vinv_run c init ops (vinv_init c) (Agg.inv_init c.base)
+
+/-- **Bridge.**  The aggregator underneath is a reachable state of the aggregator model, so every theorem of the first
+part (`c14_per_source_order`, `c14_union`, `c14_ends_iff_all_ended`, `c14_exception_keeps_others`, `c14_arg_routing`,
+`c14_destroy_waits_and_frees`, …) holds for `s.base`, whatever the access styles. -/
+theorem c14_values_layer_is_the_aggregator {c : Cfg} {s : State} (h : Reachable c s) : Agg.Reachable c.base s.base := by
+  obtain ⟨ops, rfl⟩ := h
+  exact ⟨ops.map erase, base_run c init ops⟩
+
+/-- **A delivered value stays with its source.**  While source `k` is parked at `co_yield x` (its value waiting in the
+queue, held by the consumer, or already passed on), the object `x` — which the aggregate's `_ret` points at — still holds
+the value the source put there: no access style (in particular not the future styles, whose `unblock_future()` constructs
+the future's value from `*_ret`) moves it out or modifies it. -/
+theorem c14_yielded_object_intact {c : Cfg} {s : State} (h : Reachable c s) (k v : Nat)
+    (hr : s.base.res k = SRes.val v) : s.slot k = some v :=
+  (reachable_vinv h).1.slot_ok k v hr
+
+/-- **A source finds the lvalue it yielded unchanged.**  A source that yields an lvalue it keeps using (a running
+accumulator, an element of a script stored by its owner: `Cfg.lval`) and looks at it again when it is resumed finds,
+every time, exactly the value it had yielded (`kept k` logs (yielded, found)) — so what the source yields next, which may
+be computed from it, is what it would yield when read alone. -/
+theorem c14_source_finds_its_lvalue {c : Cfg} {s : State} (h : Reachable c s) (k : Nat) (p : Nat × Option Nat)
+    (hm : p ∈ s.kept k) : p.2 = some p.1 :=
+  (reachable_vinv h).1.kept_ok k p hm
+
+/-- … and the look really happens and is logged: resuming a source that is back from the `co_yield` of an lvalue appends
+what it finds there. -/
+theorem c14_lvalue_is_looked_at (c : Cfg) (s : State) (k v : Nat) (hy : yieldedLval c s.base k = some v) :
+    (reread c s k).kept k = s.kept k ++ [(v, s.slot k)] := by
+  simp [reread, hy]
+
+/-- **The consumer reads the sources' values.**  The values the consumer actually learned from its accesses — through a
+reference into the source (`value()`, `*it`) or through the future's own copy — are, in order, exactly the values of
+`base.out`, i.e. (by `c14_per_source_order` / `c14_union` for `base`) every source value exactly once in the source's
+order; never a moved-from object (`some`). -/
+theorem c14_consumer_reads_delivered_values {c : Cfg} {s : State} (h : Reachable c s) :
+    s.obs.filterMap repVal = s.base.out.map (fun p => some p.2) :=
+  (reachable_vinv h).1.obs_vals
+
+/-- **A source's exception is reported in every access style.**  When the aggregate has failed with `e` (all sources
+exhausted, `c14_exception_keeps_others`), the last thing the consumer learned — in whatever style it made that access —
+is the exception `e`: not "no more values". -/
+theorem c14_exception_reported_in_every_style {c : Cfg} {s : State} (h : Reachable c s) (e : Nat)
+    (hf : s.base.ag = Ag.failed e) : ∃ st, s.obs.getLast? = some (st, Rep.exc e) :=
+  (reachable_vinv h).1.obs_failed e hf
+
+/-- the normal end is reported as the end, in every style -/
+theorem c14_end_reported_in_every_style {c : Cfg} {s : State} (h : Reachable c s)
+    (hd : s.base.ag = Ag.done) : ∃ st, s.obs.getLast? = some (st, Rep.ended) :=
+  (reachable_vinv h).1.obs_done hd
+
+/-- decision logic behind the three theorems above, style by style: whatever documented way the consumer uses to ask for
+the result, a parked value reads as that value (the object the source yielded, or the future's copy of it), the end as
+the end, and a stored exception as that exception -/
+theorem c14_report_by_style (st : Style) (slot : Nat → Option Nat) :
+    (∀ k, report st (PSt.yielded k) slot = Rep.val (slot k)) ∧ report st PSt.finished slot = Rep.ended ∧
+    (∀ e, report st (PSt.threw e) slot = Rep.exc e) :=
+  ⟨fun k => report_yielded st k slot, report_finished st slot, fun e => report_threw st e slot⟩
+
+/-- the report is made in the style of the access that is completing: an access in style `st` is completed by a report in
+style `st` computed from the aggregate's promise at that moment -/
+theorem c14_access_completes_in_its_style (c : Cfg) (s : State) (a : Nat) (st : Style) (hw : Agg.waiting s.base = false) :
+    (step c s (Op.next a st)).acc = st ∧
+    ∀ s' op, s'.acc = st → Agg.waiting s'.base = true → Agg.waiting (Agg.step c.base s'.base (erase op)) = false →
+      (step c s' op).obs = s'.obs ++ [(st, report st (promiseOf (step c s' op).base) (step c s' op).slot)] := by
+  refine ⟨step_next_style c s a st hw, ?_⟩
+  intro s' op hacc h1 h2
+  rw [← hacc]
+  exact step_completes_in_style c s' op h1 h2
+
+/-! ## non-vacuity and necessity -/
+
+/-- source 0 keeps an accumulator: yields it holding 10, then 11; source 1 yields 20 (a temporary), then throws 7 -/
+def exCfgV : Cfg where
+  base := { n := 2, script := fun k p =>
+    match k, p with
+    | 0, 0 => some (Act.yield 10)
+    | 0, 1 => some (Act.yield 11)
+    | 1, 0 => some (Act.yield 20)
+    | 1, 1 => some (Act.throw 7)
+    | _, _ => none }
+  lval := fun k _ => k == 0
+
+def vaggs (n : Nat) : List Op := List.replicate n Op.agg
+
+/-- the whole run in the documented loop `val = gen(); while (co_await val.has_value()) { use(*val); val.result_of(gen); }` -/
+def exOps (st : Style) : List Op :=
+  [Op.next 0 st] ++ vaggs 5 ++ [Op.next 0 st] ++ vaggs 3 ++ [Op.next 0 st] ++ vaggs 3 ++ [Op.next 0 st] ++ vaggs 6
+
+/-- read through the future: three values, then the exception of source 1; source 0 found its accumulator intact twice -/
+example : (run exCfgV init (exOps Style.futHas)).obs
+      = [(Style.futHas, Rep.val (some 10)), (Style.futHas, Rep.val (some 20)), (Style.futHas, Rep.val (some 11)),
+         (Style.futHas, Rep.exc 7)]
+    ∧ (run exCfgV init (exOps Style.futHas)).kept 0 = [(10, some 10), (11, some 11)]
+    ∧ (run exCfgV init (exOps Style.futHas)).base.ag = Ag.failed 7 := by decide
+
+/-- the same in the blocking reference style -/
+example : (run exCfgV init (exOps Style.next)).obs.map (·.2)
+      = [Rep.val (some 10), Rep.val (some 20), Rep.val (some 11), Rep.exc 7] := by decide
+
+/-- **Necessity (1).**  If `unblock_future()` resolved the future with `std::move(*_ret)` (`deliverMoving`), the future
+styles would take the value out of the source's accumulator: source 0 finds a moved-from object both times
+(`c14_source_finds_its_lvalue` fails), although every value the consumer reads is still right. -/
+theorem c14_moving_future_guts_the_source :
+    (runG deliverMoving exCfgV init (exOps Style.futHas)).kept 0 = [(10, none), (11, none)]
+    ∧ (runG deliverMoving exCfgV init (exOps Style.futHas)).obs.map (·.2)
+        = [Rep.val (some 10), Rep.val (some 20), Rep.val (some 11), Rep.exc 7]
+    ∧ (runG deliverMoving exCfgV init (exOps Style.next)).kept 0 = [(10, some 10), (11, some 11)] := by decide
+
+/-- **Necessity (2).**  If `co_await val.has_value()` answered "holds a value" (`deliverStrict`: false for an exception),
+the consumer of the documented loop would take the failed aggregate for a finished one: the exception of source 1 is
+lost (`c14_exception_reported_in_every_style` fails), in that style only. -/
+theorem c14_strict_has_value_loses_the_exception :
+    (runG deliverStrict exCfgV init (exOps Style.futHas)).obs.getLast? = some (Style.futHas, Rep.ended)
+    ∧ (runG deliverStrict exCfgV init (exOps Style.futHas)).base.ag = Ag.failed 7
+    ∧ (runG deliverStrict exCfgV init (exOps Style.futBool)).obs.getLast? = some (Style.futBool, Rep.exc 7) := by decide
+
+end Cocls.AggV
+
